@@ -19,7 +19,7 @@ def _elements(w):
 
 
 @contract('C15', 'history-independent', variants=[dict(second='date'), dict(second='None')], cas=False, no_safety=True,
-          feas_timeout_ms=1500, budget_s=1500, max_paths=64, no_crosscheck=True, cost=20,
+          feas_timeout_ms=1500, budget_s=1500, max_paths=600, no_crosscheck=True, cost=20,
           functions=['WMM.magnetic_field', 'WMM.reset_coefficients', 'WMM.load_coefficients', 'WMM.denormalize_coefficients',
                      'wmm.geodetic2spherical'])
 def c_history(c):
@@ -45,7 +45,7 @@ def c_history(c):
         return
 
 
-@contract('C15', 'constructor=method', cas=False, no_safety=True, feas_timeout_ms=1500, budget_s=1500, max_paths=64,
+@contract('C15', 'constructor=method', cas=False, no_safety=True, feas_timeout_ms=1500, budget_s=1500, max_paths=600,
           no_crosscheck=True, cost=20, functions=['WMM.__init__', 'WMM.magnetic_field'])
 def c_ctor(c):
     """WMM(date, lat, lon, h) holds the same elements as WMM().magnetic_field(lat, lon, h, date) -- for every latitude
@@ -81,7 +81,7 @@ def c_zero(c):
 
 
 @contract('C15', 'consistent-elements', variants=[dict(frame='NED'), dict(frame='ENU')], cas=False, no_safety=True,
-          feas_timeout_ms=1500, budget_s=1500, max_paths=64, no_crosscheck=True, cost=20, functions=['WMM.magnetic_field'])
+          feas_timeout_ms=1500, budget_s=1500, max_paths=600, no_crosscheck=True, cost=20, functions=['WMM.magnetic_field'])
 def c_consistent(c):
     """H, F follow from X, Y, Z; the ENU frame is the NED vector with north/east swapped and down negated"""
     W = c.ahrs.utils.WMM
